@@ -28,7 +28,7 @@ def run_case(ctx, i, rng):
     kinds = [["r2"], ["r3"], ["r2", "r3"], ["r3", "r3"], ["r2", "r2", "r2"]][i % 5]
     nmax = int(rng.choice([4, 8, 15, 30 // len(kinds)]))
     noise = float(10 ** rng.uniform(-3, 1))
-    far = float(10 ** rng.uniform(-2, 6))
+    far = float(10 ** rng.uniform(-2, 6)) if rng.random() < 0.9 else float(10 ** rng.uniform(6, 8.5))  # now and then a guess millions of units off (map origin vs UTM)
     cond = float(10 ** rng.uniform(0, 6))
     spec, labels = gen.cluster_graph(rng, kinds=kinds, size=(2, max(2, nmax)), noise_t=noise, init_t=far, cond=cond, custom=False, scale=float(10 ** rng.uniform(0, 3)), alias=bool(rng.random() < 0.25), wide_info=bool(rng.random() < 0.3))
     if far > 1e3:
